@@ -12,7 +12,7 @@ from __future__ import annotations
 
 import itertools
 
-from ..harness import Stepper, exc_info, new_gateway
+from ..harness import FAULT_CLASSES, Stepper, exc_info, new_gateway
 from ..harness import run as arun
 from ..lockstep import split_line
 from ..reach import Reach
@@ -45,6 +45,7 @@ async def fault_case(ctx, case: dict) -> None:
     version = case["version"]
     wake_type = 32 if version == "2.2" else 22
     gateway, transport = new_gateway(version)
+    transport.fault_class = case.get("fault_class", "TransportFailedError")
     for n in (A, B):
         gateway.nodes[n] = Node(n, 17, "2.0", children={c: Child(c, 3) for c in range(3)}, sleeping=True)
     stepper = Stepper(gateway, transport)
@@ -143,8 +144,9 @@ async def fault_case(ctx, case: dict) -> None:
     if parked:
         problem("command-lost", f"still parked after two fault-free wakes per node: {parked}")
     await stepper.close()
+    ctx.obs("fault-class:" + transport.fault_class)
     ctx.case((version, repr(case["sends"]), tuple(case["wakes"]), tuple(case["faults"]), repr(resends),
-              case.get("reenter_after")),
+              case.get("reenter_after"), transport.fault_class),
              nontrivial=hit_faults > 0, sample=case)
     ctx.obs("faults-hit", hit_faults)
     ctx.obs("write-attempts", transport.attempts)
@@ -162,7 +164,9 @@ def cases(ctx):
                     if not ctx.mine():
                         continue
                     count += 1
-                    yield {"version": version, "sends": sends, "wakes": wakes, "faults": list(faults)}
+                    # the class of the failure rotates through the documented family (base class, built-in, third-party)
+                    yield {"version": version, "sends": sends, "wakes": wakes, "faults": list(faults),
+                           "fault_class": FAULT_CLASSES[count % len(FAULT_CLASSES)]}
                     if size <= 1 and len(wakes) >= 2:
                         for reenter_after in (-1, 0):
                             yield {"version": version, "sends": sends, "wakes": wakes, "faults": list(faults),
@@ -174,7 +178,7 @@ def cases(ctx):
             for failures in (1, 2, 3, 4, 5, 6, 8, 12, 20, ctx.pick(40, 150)):
                 if ctx.mine():
                     yield {"version": version, "sends": sends, "wakes": [A] * (failures + 1) + [B],
-                           "faults": list(range(failures))}
+                           "faults": list(range(failures)), "fault_class": FAULT_CLASSES[failures % len(FAULT_CLASSES)]}
                     yield {"version": version, "sends": sends, "wakes": [A, B] * failures + [A],
                            "faults": list(range(0, 2 * failures, 2))}
     if not ctx.quick:
@@ -186,7 +190,8 @@ def cases(ctx):
                         for faults in itertools.combinations(range(7), size):
                             if ctx.mine():
                                 yield {"version": version, "sends": sends, "wakes": wakes, "faults": list(faults),
-                                       "resends": [r for r in resends]}
+                                       "resends": [r for r in resends],
+                                       "fault_class": FAULT_CLASSES[(size + len(sends)) % len(FAULT_CLASSES)]}
 
 
 def concurrent_fault_cases(ctx) -> None:
@@ -201,7 +206,7 @@ def concurrent_fault_cases(ctx) -> None:
             for senders in ([[[*k1, True]]], [[[*k2, True]]], [[[*k1, True]], [[*k1, True]]], [[[*k1, True]], [[*k2, True]]]):
                 for max_faults in (1, 2):
                     configs.append({"version": version, "parked": parked, "senders": senders, "wakes": [A, A],
-                                    "max_faults": max_faults})
+                                    "max_faults": max_faults, "fault_class": FAULT_CLASSES[len(configs) % len(FAULT_CLASSES)]})
     for config in configs:
         if not ctx.mine():
             continue
